@@ -172,7 +172,7 @@ func iamReplay(c *core.Ctx, ctl *sched.Controller, scn string, initPresent, init
 		var stops []string
 		switch kind {
 		case "lookup":
-			stops = []string{"iam.lookup", "iam.fetched"}
+			stops = []string{"iam.lookup", "iam.fetched", "iam.missed"}
 			run = func() any { gw.SetLabel(lab); a, err := cache.GetUserAccount(iamAccess); return iamReadOp("", a, err) }
 		case "create":
 			stops = []string{"iam.created"}
@@ -323,6 +323,11 @@ func C17(c *core.Ctx, replay string) {
 	}
 	var only *linLine
 	if replay != "" {
+		var sc storeCase
+		if core.LoadReplayCase(replay, &sc) == nil && sc.Stage == "iamstore" {
+			c17Store(c, ctl, &sc)
+			return
+		}
 		var l linLine
 		if err := core.LoadReplayCase(replay, &l); err != nil {
 			c.Inconclusive("replay: %v", err)
@@ -403,6 +408,8 @@ func C17(c *core.Ctx, replay string) {
 	}
 	c.Exhaustive = only == nil
 	if only == nil {
+		c17Store(c, ctl, nil)
+		c17Prune(c)
 		for _, l := range c17Stress(c) {
 			lines = append(lines, l)
 			meta = append(meta, l)
